@@ -56,6 +56,10 @@ def main():
         b = sh(f"{V}/tools/baseline_off.sh {WT}")
         res["suite"] = b.stdout.strip()[-300:]
         res["suite_ok"] = b.returncode == 0
+    if "--no-suite" in args and isinstance(meta.get("confirmed"), dict):  # keep the verdict of the run that did execute the suite
+        for k in ("suite", "suite_ok"):
+            if meta["confirmed"].get(k) is not None:
+                res[k] = meta["confirmed"][k]
     res["checks"] = {}
     for c in checks:
         r = sh(f"cd {V} && VERIF_REPO={WT} ./check {c} {tier}", env=dict(os.environ, VERIF_REPO=str(WT)))
@@ -68,14 +72,23 @@ def main():
     res["caught"] = caught
     out = V / "seeded" / name
     out.mkdir(parents=True, exist_ok=True)
-    shutil.copy(src / "patch.diff", out / "patch.diff")
-    shutil.copy(src / "demo.py", out / "demo.py")
-    meta_out = {"property": pid, "source": "independent sub-agent given only the property text and a scratch worktree",
+    if src.resolve() != out.resolve():
+        shutil.copy(src / "patch.diff", out / "patch.diff")
+        shutil.copy(src / "demo.py", out / "demo.py")
+    default_source = ("revert of a fix: commit of /repo (the repaired defect must be reported again if it returns)" if "self-revert" in name
+                      else "independent sub-agent given only the property text and a scratch worktree")
+    meta_out = {"property": pid, "source": meta.get("source") or default_source,
                 "title": meta.get("title"), "files": meta.get("files"), "what_it_breaks": meta.get("what_it_breaks"),
                 "needs_to_manifest": meta.get("needs_to_manifest"), "why_tests_miss_it": meta.get("why_tests_miss_it"),
                 "confirmed": {k: res.get(k) for k in ("patch_applies", "suite_ok", "suite", "demo_clean_exit", "demo_mutated_exit")},
                 "ran": f"tools/seed_eval.py (scratch worktree, VERIF_REPO) ./check {','.join(checks)} {tier}",
                 "result": res["checks"], "caught": caught}
+    if not meta_out["title"] and (src / "README.md").exists():
+        meta_out["title"] = (src / "README.md").read_text().strip().splitlines()[0][:200]
+    if res.get("demo_mutated_exit") == 0 and res.get("demo_clean_exit") == 0 and "self-revert" not in name:
+        # the demonstration passes WITH the change on the current tree: the change no longer breaks the property here
+        meta_out["status"], meta_out["caught"] = "neutralised", None
+        meta_out["note"] = meta.get("note") or "the demonstration passes with the change applied on the current tree"
     (out / "meta.json").write_text(json.dumps(meta_out, indent=1) + "\n")
     print(json.dumps({k: res[k] for k in res if k != "demo_mutated_output"}, indent=1))
     print("CAUGHT" if caught else "MISSED", name)
